@@ -17,12 +17,13 @@ type Profile struct {
 	Hints       int // chance (in 100) of a forwarding hint
 	FibChurn    int // chance (in 100) of a FIB/strategy/face change between packets
 	DefaultToNL int // chance (in 100) of a default route towards a non-local face
+	LinkSvc     int // chance (in 100) that a history enters through the real link service ("ls")
 }
 
 var (
-	P01 = Profile{ID: "C01", Localhost: 8, DataRatio: 45, NextHop: 3, Hints: 10, FibChurn: 6, DefaultToNL: 30}
-	P02 = Profile{ID: "C02", Localhost: 6, DataRatio: 25, NextHop: 10, Hints: 20, FibChurn: 15, DefaultToNL: 30}
-	P09 = Profile{ID: "C09", Localhost: 45, DataRatio: 40, NextHop: 12, Hints: 8, FibChurn: 8, DefaultToNL: 70}
+	P01 = Profile{ID: "C01", Localhost: 8, DataRatio: 45, NextHop: 3, Hints: 10, FibChurn: 6, DefaultToNL: 30, LinkSvc: 35}
+	P02 = Profile{ID: "C02", Localhost: 6, DataRatio: 25, NextHop: 10, Hints: 20, FibChurn: 15, DefaultToNL: 30, LinkSvc: 35}
+	P09 = Profile{ID: "C09", Localhost: 45, DataRatio: 40, NextHop: 12, Hints: 8, FibChurn: 8, DefaultToNL: 70, LinkSvc: 50}
 )
 
 func comp(s string) enc.Component {
@@ -283,8 +284,15 @@ func Gen(g *common.Gen, p Profile) {
 		r := root.Fork()
 		s := &genSt{g: g, r: r, p: p, local: map[int]bool{}}
 		admit, serve := b2i(!r.Chance(1, 6)), b2i(!r.Chance(1, 6))
-		g.Op("new %d %d %d %d %s", admit, serve, common.Pick(r, []int{0, 1, 2, 8, 8, 64}),
-			common.Pick(r, []int{300, 1000, 1000, 6000}), common.Pick(r, []string{"nametree", "nametree", "nametree", "hashtable"}))
+		ls := ""
+		if r.Intn(100) < p.LinkSvc {
+			ls = " ls"
+			g.Stat("ingress-link-service")
+		} else {
+			g.Stat("ingress-direct")
+		}
+		g.Op("new %d %d %d %d %s%s", admit, serve, common.Pick(r, []int{0, 1, 2, 8, 8, 64}),
+			common.Pick(r, []int{300, 1000, 1000, 6000}), common.Pick(r, []string{"nametree", "nametree", "nametree", "hashtable"}), ls)
 		nf := r.Range(3, 5)
 		nonlocal := []int{}
 		for k := 0; k < nf; k++ {
